@@ -19,7 +19,7 @@ Restricted == {3, 5, 6, 9, 10, 11, 15}
 
 ControlPlane == {"picker", "configsel", "creds_dial", "creds_call"}
 Sources == ControlPlane \cup {"dialer", "marshal", "unmarshal", "handler", "context", "transport",
-                              "retry_server", "retry_picker"}
+                              "retry_server", "retry_picker", "compressor"}
 \* kinds of error value: a plain error, a status error with code c, an error wrapping (%w) a status
 \* error with code c, context.Canceled, context.DeadlineExceeded, io.ErrUnexpectedEOF; for the
 \* "context" source: the RPC's context is cancelled / past its deadline before or during the RPC
@@ -32,8 +32,13 @@ TrKinds == [k : {"client_conn_closed", "server_conn_closed"}, c : {0}]
 \* (UNAVAILABLE trailers-only from the server / a failing picker) and the RPC's context is cancelled or
 \* passes its deadline while the channel sleeps in the retry backoff (stream.go shouldRetry)
 RetryKinds == [k : {"cancel_backoff", "deadline_backoff"}, c : {0}]
+\* for the "compressor" source: a registered encoding.Compressor selected with grpc.UseCompressor fails with
+\* a plain error at Compress(), at the writer's Write() or Close() (rpc_util.go compress), at Decompress()
+\* or at the reader's Read() (rpc_util.go decompress)
+ZKinds == [k : {"compress", "write", "close", "decompress", "read"}, c : {0}]
 Apis == {"unary", "stream"}
-Cases == {x \in [src : Sources, kind : ValueKinds \cup CtxKinds \cup TrKinds \cup RetryKinds, api : Apis] :
+Cases == {x \in [src : Sources, kind : ValueKinds \cup CtxKinds \cup TrKinds \cup RetryKinds \cup ZKinds, api : Apis] :
+            /\ (x.src = "compressor") <=> (x.kind \in ZKinds)
             /\ (x.src \in {"retry_server", "retry_picker"}) <=> (x.kind \in RetryKinds)
             /\ (x.src = "context") <=> (x.kind \in CtxKinds)
             /\ (x.src = "transport") <=> (x.kind \in TrKinds)}
@@ -58,6 +63,7 @@ Ref(x) ==
                                ELSE CASE kd.k = "canceled" -> {Canceled} [] kd.k = "deadline" -> {DeadlineExceeded}
                                       [] OTHER -> {Unknown}
     [] x.src = "transport"  -> {Unavailable}
+    [] x.src = "compressor" -> {Internal}
     [] x.src \in {"retry_server", "retry_picker"}
                             -> IF kd.k = "cancel_backoff" THEN {Canceled} ELSE {DeadlineExceeded}
     [] x.src = "context"    -> IF kd.k \in {"cancel_before", "cancel_during"} THEN {Canceled} ELSE {DeadlineExceeded}
